@@ -412,13 +412,17 @@ func (m *MetricStorage) applyGroupOperations(group string, ops []operation.Metri
 		labels := MergeLabels(op.Labels, commonLabels)
 		if op.Action == "add" && op.Value != nil {
 			m.groupedVault.CounterAdd(group, op.Name, *op.Value, labels)
+			// The 'add' shortcut is already translated to action+value by the parser: do not count it twice.
+			continue
 		}
 		//nolint:staticcheck
 		if op.Add != nil {
 			m.groupedVault.CounterAdd(group, op.Name, *op.Add, labels)
+			continue
 		}
 		if op.Action == "set" && op.Value != nil {
 			m.groupedVault.GaugeSet(group, op.Name, *op.Value, labels)
+			continue
 		}
 		//nolint:staticcheck
 		if op.Set != nil {
